@@ -91,6 +91,8 @@ func checkC13(c *Ctx) {
 	c.Clause("each proxied request records exactly one per-backend sample, named after the backend that served it, with the same success flag as the global outcome; the flag is status < 500 of the status the wrapper captured")
 	c.Clause("counters are atomic-only / under Metrics.mutex")
 	c.Clause("inside the collector each record call moves exactly its own counter by exactly one: RecordRequest→total, RecordResponse(ok)→successful xor failed, RecordRateLimitedRequest→rate-limited, RecordBackendRequest(name, ok)→that backend's total and its successful xor failed")
+	c.Clause("reading the in-flight counter and publishing the reading happen in one critical section per backend (two finishing requests cannot publish out of order); only the ±1 at request start/end and the constructor write the counter")
+	c.Clause("the status the outcome derives from is the last one written (an interim 1xx does not mask the final status)")
 	c.NotDecided("equality with an external tally; EMA arithmetic; behaviour above the 1000-backend cap")
 
 	c.collectorConservation()
